@@ -105,3 +105,82 @@ META["C18"] = _m("TLC checks InternUnique on the Pool model and prints its compl
                  note="Trusted: Pool.tla; address stability is observed (pointer equality of re-resolved references), undefined behaviour that does not move memory is invisible. Bounded alphabet.")
 META["C20"] = _m("TLC checks Partition and SortedIsPermutation on the Cache model and prints the complete query graph over a family of two-package universes (favored in every position, hints none/all/some, missing package, empty version set, union requirement); every transition is replayed on a real SolverCache comparing the returned value, the exact sequence of provider calls (none for a repeated query) and the availability answer for every solvable. In addition real solves whose sort_candidates re-enters the cache are validated by TLC (C20_Availability).", "6 C20", "TLC state-graph generation + replay into the real SolverCache; TLA+ trace validation of re-entrant queries",
                  note="Trusted: Cache.tla and Universe.tla (Sorted, Match); bounded universe family and query alphabet.")
+
+
+# ---------------------------------------------------------------------------
+# C06 determinism: the same case repeatedly in one process and in separate
+# processes; TLC compares the observable projections run by run
+# ---------------------------------------------------------------------------
+def _blocks(trace):
+    """yields (group, [lines]) per case of a trace"""
+    cur, grp = [], None
+    with open(trace) as f:
+        for line in f:
+            if '"ev":"begin"' in line:
+                ev = json.loads(line)
+                grp = ev["cfg"]["group"]
+                cur = []
+            cur.append(line)
+            if line.startswith('{"ev":"end"}'):
+                yield grp, cur
+                cur = []
+
+
+def _c06(prop, tier, seed, t0):
+    check.enable_rules(prop)
+    exe = vlib.build_harness("release")
+    wd = vlib.fresh_dir(os.path.join(vlib.WORK, prop))
+    n = 60 if tier == "quick" else 1200
+    allc = os.path.join(wd, "rep.all")
+    total = vlib.gen_cases(exe, allc, "repeat:base,midconflict,soft,hints,cyclic", n, seed, "", whitebox=False,
+                           extra=["--reps", "4"])
+    shards = vlib.split_file(allc, 8 if tier == "quick" else 32, wd, "rep")
+    merged = []
+    nproc = 3
+    for sh in shards:
+        traces = []
+        for pi in range(nproc):      # separate processes: different hasher seeds and addresses
+            t = sh[:-6] + f".p{pi}.trace"
+            vlib.run_cases(exe, sh, t)
+            traces.append(t)
+        by_group = {}
+        order = []
+        for pi, t in enumerate(traces):
+            for g, lines in _blocks(t):
+                if g not in by_group:
+                    by_group[g] = []
+                    order.append(g)
+                if pi > 0:
+                    # runs from another process are all compared with what came before
+                    lines = [lines[0].replace('"same":""', '"same":"exact"', 1)] + lines[1:]
+                by_group[g] += lines
+        m = sh[:-6] + ".merged.trace"
+        with open(m, "w") as f:
+            for g in order:
+                f.writelines(by_group[g])
+        for t in traces:
+            os.remove(t)
+        merged.append(m)
+    import concurrent.futures as cf
+    res = vlib.TraceResult()
+    with cf.ThreadPoolExecutor(max_workers=12) as ex:
+        for fails, covers, begins, st in ex.map(lambda t: vlib.validate_trace(t, tag=prop), merged):
+            res.fails += fails
+            for (_i, _k, tags) in covers:
+                for tg in tags:
+                    res.cover[tg] += 1
+            res.runs += len(begins)
+            for (_i, _k, prof) in begins:
+                res.profiles[prof] += 1
+            res.states += st["distinct"]
+            res.transitions += st["states"]
+    res.traces = merged
+    return check.finish_trace_check(prop, tier, seed, res, t0, total * nproc,
+                                    {"processes_per_case": nproc, "runs_per_process": 4,
+                                     "pairs_compared": res.cover.get("paired", 0)})
+
+
+CHECKS["C06"] = _c06
+check.NONTRIVIAL["C06"] = ("paired", "a run compared with the previous run of the same problem (same process or another process)")
+META["C06"] = _m("Each generated problem is solved 4 times in one process on fresh solvers and again in 2 further processes (different hasher seeds and addresses); the 12 executions of a problem are placed side by side in one trace and TLC requires every execution to show the same verdict, solution sequence, rendered message and provider call sequence as its predecessor.", "6 C06", "TLA+ trace validation (TLC) of side-by-side executions (pair rule in Trace_Solve.tla)",
+                 note="Decided over sampled pairs of executions: TLC cannot enumerate hash seeds. Trusted: each process really gets fresh ahash seeds (default runtime-rng).")
